@@ -111,6 +111,12 @@ def probe_portfolio(spec):
             o['value'] = float(res.value)
             o['duals'] = dump_duals(res.duals)
             try:
+                # solving must leave the problem as it was assembled (the rows are what enforces the balance)
+                after = dump_problem(op)
+                o['problem_changed_by_optimize'] = [k for k in ('c', 'l', 'u', 'b', 'cType', 'rows') if after[k] != o['problem'][k]]
+            except Exception as e:
+                o['problem_changed_by_optimize'] = ['dump failed: ' + repr(e)[:100]]
+            try:
                 o['out'] = tables(portf, op, res)
                 if opts.get('extract_twice'):
                     # the result object is decoded a second time (e.g. once plain, once with the input prices): same tables expected
